@@ -69,9 +69,8 @@ def run_d6(ctx):
     if vf is None or sf is None:
         ctx.bad("C04/D6", "anchors", "PublicKey::verify / PrivateKey::sign not found (failing closed)")
         return
-    vb, sb = Body(vf), Body(sf)
-    ctx.touch_body(vb)
-    ctx.touch_body(sb)
+    vb = ctx.region(None, policy="private", key=vf["key"], ps=True)
+    sb = ctx.region(None, policy="private", key=sf["key"], ps=True)
     vt = {}
     for (bb, tok) in statics_and_signs(vb):
         arm = arm_of(vb, bb)
@@ -85,7 +84,7 @@ def run_d6(ctx):
     unk_ok = False
     for (e, tb, f) in vb.all_edge_facts():
         if f[0] == "variant" and f[2] == "Unknown" and (f[3] or "").endswith("SignatureScheme"):
-            r = vb.reach_from(tb)
+            r = vb.reach_between(tb)
             unk_ok = not any(callee_name(vb.blocks[x]["term"]) and "ring::" in callee_name(vb.blocks[x]["term"]) for x in r
                              if vb.blocks[x]["term"] and vb.blocks[x]["term"]["k"] == "call")
     ctx.inst("C04/D6", "verify rejects an unknown scheme", unk_ok, "the Unknown(..) arm reaches no ring verification call")
